@@ -483,6 +483,51 @@ def h_resolution_rot(cs):
     prove("resolution:rot_sign", (r.x * r.y > 0) == (rx * ry > 0))
 
 
+# ---- N11 norm_xy ------------------------------------------------------------------------------------
+def h_norm_xy(n):
+    """norm_xy's documented contract: after normalisation the mean is at 0 and the mean distance
+    from 0 is sqrt(2); the returned affine is that normalisation; a finite result for any set of
+    points that are not all the same -- also when one of them is the centroid.  Points on a
+    horizontal line keep the distances linear (|x - mean|)."""
+    import numpy as real_np
+
+    import odc.geo.math as m
+
+    xs = [Real(f"x{k}") for k in range(n)]
+    y0 = Real("y0")
+    assume(Or(*[xs[k] != xs[0] for k in range(1, n)]))
+    conc = symx.concrete_mode()
+    if conc:
+        pts = real_np.asarray([[float(x), float(y0)] for x in xs])
+    else:
+        pts = real_np.empty((n, 2), dtype=object)
+        for k, x in enumerate(xs):
+            pts[k, 0], pts[k, 1] = x, y0
+    try:
+        XX, A = m.norm_xy(pts)
+    except ZeroDivisionError:
+        prove("normalisation_is_finite", False)
+        return
+    if conc:
+        prove("normalisation_is_finite", bool(real_np.isfinite(XX).all()) and all(real_np.isfinite(v) for v in A[:6]))
+        if not real_np.isfinite(XX).all():
+            return
+        dist = real_np.sqrt((XX**2).sum(axis=1)).mean()
+        prove("mean_distance_is_sqrt2", abs(dist - 2**0.5) <= 1e-9)
+        prove("mean_at_origin", bool((abs(XX.mean(axis=0)) <= 1e-9).all()))
+        return
+    sx = A.a
+    prove("scale_positive", ex(sx) > 0)
+    mean = sum(ex(x) for x in xs) / n
+    dists = [abs(ex(x) - mean) * ex(sx) for x in xs]
+    md = sum(dists) / n
+    prove("mean_distance_is_sqrt2", md * md == 2)
+    prove("mean_at_origin", And(sum(ex(XX[k, 0]) for k in range(n)) == 0, sum(ex(XX[k, 1]) for k in range(n)) == 0))
+    for k in range(n):
+        px, py = A * (xs[k], y0)
+        prove(f"affine_is_the_normalisation{k}", And(ex(px) == ex(XX[k, 0]), ex(py) == ex(XX[k, 1])))
+
+
 # ---- N10 split_translation -----------------------------------------------------------------------
 def h_split_translation():
     from odc.geo.types import xy_
@@ -687,5 +732,8 @@ OBLIGATIONS = [
        descr="maybe_int and is_almost_int agree in exact IEEE-754 arithmetic; the int returned comes from an integral float within tol of x",
        functions=("odc.geo.math.maybe_int", "odc.geo.math.is_almost_int", "odc.geo.math.split_float"), bounds="binary16 whole domain (tol 1/64); binary64 exponent slices (tol 1e-6)",
        stubs=("fmod exact encoding",), setup=setup_fp, timeout_ms=600000, deadline_s=3000),
+    Ob("N11_norm_xy", h_norm_xy, fixed(dict(n=2), dict(n=3)), descr="norm_xy: mean at 0, mean distance sqrt(2) (its docstring), affine = the normalisation, finite also when a point is the centroid",
+       functions=("odc.geo.math.norm_xy",), bounds="2-3 points on a horizontal line with symbolic abscissae, not all equal (keeps distances linear); object-dtype numpy arrays carry the symbolic reals through the real numpy calls",
+       stubs=("sqrt as a fresh non-negative root",), setup=setup, fresh_only=True, timeout_ms=30000),
     Ob("N10_split_translation", h_split_translation, fixed(), descr="split_translation", functions=("odc.geo.math.split_translation",), setup=setup),
 ]
